@@ -176,6 +176,16 @@ func errName(e int) string {
 		return "EOF"
 	case -1:
 		return "negative-count"
+	case 50:
+		return "error wrapping io.EOF"
+	case 51:
+		return "error wrapping io.ErrUnexpectedEOF"
+	case 52:
+		return "custom error with Is(io.EOF)"
+	case 53:
+		return "io.ErrUnexpectedEOF"
+	case 55:
+		return "errors.Join(io.EOF, x)"
 	}
 	return fmt.Sprintf("err%d", e)
 }
@@ -186,15 +196,40 @@ type userErr int
 
 func (u userErr) Error() string { return fmt.Sprintf("user error %d", int(u)) }
 
+// error values that must keep their IDENTITY through ReadFrom / WriteTo (the model knows them as the caller's errors
+// number 50..55): only io.EOF itself ends ReadFrom without error, an error that merely wraps it does not
+type isEOFErr struct{}
+
+func (isEOFErr) Error() string        { return "custom error whose Is(io.EOF) is true" }
+func (isEOFErr) Is(target error) bool { return target == io.EOF }
+
+var (
+	errWrapEOF        = fmt.Errorf("scripted: read failed: %w", io.EOF)
+	errWrapUnexpected = fmt.Errorf("scripted: read failed: %w", io.ErrUnexpectedEOF)
+	errJoinedEOF      = errors.Join(io.EOF, errors.New("scripted: and something else"))
+)
+
 func errOf(e int) error {
 	switch e {
 	case 0:
 		return nil
 	case 1:
 		return io.EOF
+	case 50:
+		return errWrapEOF
+	case 51:
+		return errWrapUnexpected
+	case 52:
+		return isEOFErr{}
+	case 53:
+		return io.ErrUnexpectedEOF
+	case 55:
+		return errJoinedEOF
 	}
 	return userErr(e)
 }
+
+var identityErrs = []int{50, 51, 52, 53, 55}
 
 type sreader struct {
 	sc []chunk
@@ -233,6 +268,17 @@ func errStatus(err error) int64 {
 		return 901
 	case err == io.ErrShortWrite:
 		return 903
+	case err == errWrapEOF:
+		return 1050
+	case err == errWrapUnexpected:
+		return 1051
+	case err == io.ErrUnexpectedEOF:
+		return 1053
+	case err == errJoinedEOF:
+		return 1055
+	}
+	if _, ok := err.(isEOFErr); ok {
+		return 1052
 	}
 	if u, ok := err.(userErr); ok {
 		return 1000 + int64(u)
@@ -397,6 +443,9 @@ func apply(b bufAPI, o *gop) (st int64, data []int64) {
 		d := []int64{n}
 		if w.called {
 			d = append(d, i64s(w.got)...)
+		}
+		if err == io.EOF { // a writer's io.EOF is just the caller's error number 1 for WriteTo
+			return 1001, d
 		}
 		return errStatus(err), d
 	case kLen:
